@@ -4,6 +4,11 @@ The per-check level texts live in stages.json under "manifest"."""
 import json, os, subprocess
 V = os.path.dirname(os.path.dirname(os.path.abspath(__file__)))
 stages = json.load(open(os.path.join(V, "stages.json")))
+sd = os.path.join(V, "stages.d")
+if os.path.isdir(sd):
+    for fn in sorted(os.listdir(sd)):
+        if fn.endswith(".json"):
+            stages.update(json.load(open(os.path.join(sd, fn))))
 props = [json.loads(l) for l in open(os.path.join(V, "properties.jsonl"))]
 hooks = [l.split()[0] for l in open(os.path.join(V, "MANIFEST.hooks")) if l.strip() and not l.startswith("#")] if os.path.exists(os.path.join(V, "MANIFEST.hooks")) else []
 checks, na = [], []
